@@ -16,7 +16,8 @@ OBLIGATIONS = [
 N_QUICK, N_THOROUGH = 450, 8000
 RULE = ("seeded random DCOPs: 0-8 variables drawn from a pool of 14 names whose lexical order differs "
         "from their numeric/natural order, 0-9 constraints of arity 0-4 (matrix, python-function and "
-        "expression relations), isolated variables, for each of the three graph modules; built "
+        "expression relations), isolated variables, constraints written with the very same Variable "
+        "objects or with equal-but-distinct ones (created again / clone()), for each of the three graph modules; built "
         "through a DCOP (dicts set as the YAML loader does, or add_variable/add_constraint) or "
         "through the variables=/constraints= arguments (then also duplicate variables, duplicate "
         "constraint names, constraint/variable name clashes, scopes with variables that are not "
@@ -100,7 +101,10 @@ def gen(rng, n, tier):
             c = rng.choice(cons)
             if extra and len(c[1]) < 4:
                 c[1].append(rng.choice(extra))
-        cases.append(dict(graph=graph, path=path, vars=vs, cons=cons))
+        # how the constraints refer to a variable: the very same Variable object everywhere, or
+        # equal-but-distinct objects (created again / clone()) as DCOP.add_constraint accepts
+        inst = rng.choice(["shared", "fresh", "fresh", "clone"])
+        cases.append(dict(graph=graph, path=path, vars=vs, cons=cons, inst=inst))
     return cases
 
 
@@ -116,10 +120,19 @@ def _make(case):
         if name not in pool:
             pool[name] = Variable(name, d)
         return pool[name]
+    inst = case.get("inst", "shared")
+
+    def use(name):
+        """the Variable object a constraint is written with"""
+        if inst == "fresh":
+            return Variable(name, d)
+        if inst == "clone":
+            return var(name).clone()
+        return var(name)
     vs = [var(v) for v in case["vars"]]
     cons = []
     for cn, scope, kind in case["cons"]:
-        svars = [var(v) for v in scope]
+        svars = [use(v) for v in scope]
         if kind == "expr" and svars:
             c = constraint_from_str(cn, " + ".join(scope), svars)
         elif kind == "func" and svars:
@@ -365,6 +378,7 @@ def histogram(cases, obs):
     for c, o in zip(cases, obs):
         k = "%s/%s" % (c["graph"], c["path"])
         h[k] = h.get(k, 0) + 1
+        h["inst=" + c.get("inst", "shared")] = h.get("inst=" + c.get("inst", "shared"), 0) + 1
         if isinstance(o, dict) and "error" in o:
             h["error/" + o["error"]] = h.get("error/" + o["error"], 0) + 1
         h["nvars=%d" % len(c["vars"])] = h.get("nvars=%d" % len(c["vars"]), 0) + 1
